@@ -187,7 +187,7 @@ Example C13_sample_answers :
                ((2, 24), (2, 25)); ((2, 35), (2, 36))])
   /\ rename (doc_of sample_refs) 3 18 = ROk (Some [((3, 18), (3, 19)); ((3, 38), (3, 39))])
   /\ prepare_rename (doc_of sample_refs) 3 18 = ROk (Some ((3, 18), (3, 19)))
-  /\ prepare_rename (doc_of sample_refs) 3 21 = ROk None.
+  /\ prepare_rename (doc_of sample_refs) 3 19 = ROk None.
 Proof. vm_compute. repeat split. Qed.
 
 (* an instance of the round trip: renaming main's `a` to `fresh` and back *)
